@@ -92,6 +92,10 @@ def _patch_foreign_raise(st):
         cell = [st]
 
         def wrapper(tid, exc, _orig=orig, _cell=cell):
+            s0 = _cell[0]
+            if s0 is not None and s0.plan.get('raise_delay'):
+                import time
+                time.sleep(float(s0.plan['raise_delay']))      # a control thread that is slow to raise the exception it was asked for
             r = _orig(tid, exc)
             s = _cell[0]
             if s is not None and s.thread is not None:
@@ -189,6 +193,8 @@ def make_tracer(st):
                 if me is not None and type(me).__name__ == st.cls:
                     st.thread = threading.get_ident()
                     st.anchor_frame = frame
+                    if st.plan.get('raise_delay'):
+                        _patch_foreign_raise(st)
                     if not st.arm_text and not st.arm_lines:
                         st.armed = True
                     if st.opcode:
